@@ -184,6 +184,7 @@ func (tr *Trans) call(fr *Frame, res ssa.Value, c *ssa.CallCommon, site ssa.Inst
 			tr.assertSafe("(not (= "+tr.expr(recv)+" any_nil))", "nil-iface-call", pos, "method call on nil interface")
 		}
 		if ct := tr.eng.contracts[key]; ct != nil {
+			tr.eng.usedContracts[key] = true
 			tr.setResult(fr, res, tr.applyContract(ct, nil, args, sig, pos, key))
 			return
 		}
@@ -244,6 +245,7 @@ func (tr *Trans) callFunc(fr *Frame, res ssa.Value, fn *ssa.Function, binds []*V
 		return
 	}
 	if ct != nil {
+		tr.eng.usedContracts[ct.Key] = true
 		tr.setResult(fr, res, tr.applyContract(ct, fn, args, sig, pos, key))
 		return
 	}
@@ -257,6 +259,9 @@ func (tr *Trans) callFunc(fr *Frame, res ssa.Value, fn *ssa.Function, binds []*V
 			return
 		}
 		// default modular treatment: havoc the inferred write set
+		if fn.Parent() != nil {
+			tr.eng.opaqueUse[fn] = true
+		}
 		tr.eng.recordCall(tr.fn, fn)
 		ws := tr.eng.writeSet(fn)
 		if ws["*"] {
@@ -432,11 +437,38 @@ func (tr *Trans) callScope(ct *Contract, fn *ssa.Function, args []*Val) *Scope {
 func (tr *Trans) applyRequires(ct *Contract, fn *ssa.Function, args []*Val, pos token.Pos, key string) {
 	sc := tr.callScope(ct, fn, args)
 	tr.callN[key]++
-	for i, cl := range ct.Requires {
+	tr.lastCallScope = sc
+	reqIdx := map[int]bool{}
+	for _, oi := range ct.PreOrder {
+		if oi < 0 {
+			l := ct.Lets[-oi-1]
+			te, err := sc.elab(l.E)
+			if err != nil {
+				tr.eng.fatal("%s: let %s at call from %s: %v", ct.File, l.Name, tr.name, err)
+				continue
+			}
+			c := tr.freshConst("let_"+l.Name, te.Sort)
+			tr.cur.assume(fmt.Sprintf("(= %s %s)", c, te.E))
+			sc.vars[l.Name] = TExpr{E: c, Sort: te.Sort, GoT: te.GoT, Old: te.Old}
+			continue
+		}
+		reqIdx[oi] = true
+		tr.oneRequire(ct, sc, oi, key, pos)
+	}
+	for i := range ct.Requires {
+		if !reqIdx[i] {
+			tr.oneRequire(ct, sc, i, key, pos)
+		}
+	}
+}
+
+func (tr *Trans) oneRequire(ct *Contract, sc *Scope, i int, key string, pos token.Pos) {
+	{
+		cl := ct.Requires[i]
 		te, err := sc.elab(cl.E)
 		if err != nil {
 			tr.eng.fatal("%s:%d: requires %q at call from %s: %v", ct.File, cl.Line, cl.Src, tr.name, err)
-			continue
+			return
 		}
 		anchor := fmt.Sprintf("%s#%d.%d", key, tr.callN[key], i)
 		if cl.Name != "" {
@@ -453,7 +485,7 @@ func (tr *Trans) applyRequires(ct *Contract, fn *ssa.Function, args []*Val, pos 
 
 func (tr *Trans) applyContract(ct *Contract, fn *ssa.Function, args []*Val, sig *types.Signature, pos token.Pos, key string) []*Val {
 	tr.applyRequires(ct, fn, args, pos, key)
-	sc := tr.callScope(ct, fn, args)
+	sc := tr.lastCallScope
 	blk, at := tr.cur, len(tr.cur.Stmts)
 	snaps := map[string]string{}
 	var snapOrder []string
@@ -616,6 +648,9 @@ func (tr *Trans) applyFrame(ct *Contract, fn *ssa.Function, sc *Scope, args []*V
 		tr.eng.recordWrite(tr.fn, l.comp)
 		parts := splitSortArgs(srt)
 		fresh := tr.freshConst("mod_"+l.comp, parts[1])
+		if m, ok := tr.eng.sorts.compMeta[l.comp]; ok && m.Nest == "" && !m.Dom {
+			tr.typeFacts(&Val{K: VExpr, E: fresh, T: m.T})
+		}
 		// the caller must itself be entitled to have this location written
 		if l.guard == "true" {
 			tr.checkWrite(l.comp, l.ref, pos, "callee frame "+l.comp)
@@ -683,6 +718,7 @@ func walk(n Node, f func(Node)) {
 // ---- inlining ----
 
 func (tr *Trans) inline(fr *Frame, fn *ssa.Function, binds []*Val, args []*Val, yield *iterExpansion) []*Val {
+	tr.eng.inlinedFns[fn] = true
 	nf := tr.newFrame(fn, fr)
 	nf.binds = binds
 	nf.params = args
@@ -736,6 +772,7 @@ func (tr *Trans) expandIterator(fr *Frame, it *Val, yc *Val, pos token.Pos) {
 	after := tr.il.newBlock("iter.after")
 	body := tr.il.newBlock("iter.body")
 	done := tr.il.newBlock("iter.done")
+	head.Owner, after.Owner, body.Owner, done.Owner = fr, fr, fr, fr
 	yfn := yc.Fn
 	head.PosList = append(head.PosList, int(yfn.Pos()))
 	lo := &loopOrigin{frame: fr, kind: "rangefunc", pos: []token.Pos{yfn.Pos()}}
